@@ -156,3 +156,12 @@ func IteU64(c bool, a, b uint64) uint64 {
 func RetentionDays() float32 {
 	return float32(float64(int64(val("retention"))) / 86400e9)
 }
+
+// Debug prints a value when tracing (engine) or to stdout (native).
+func Debug(tag string, v interface{}) { println("DEBUG", tag, v) }
+
+// ClockRead returns the current model clock without advancing it (natively: real time).
+func ClockRead() int64 { return timeNowNano() }
+
+// ClockStep makes the model clock strictly advance (natively: sleeps a microsecond).
+func ClockStep() { sleepMicro() }
